@@ -14,11 +14,19 @@ def first_para(notes, key):
 
 
 def main():
-    props = sys.argv[1:] or sorted(os.path.basename(d) for d in glob.glob(os.path.join(INC, "C*")))
+    sel = {}
+    for a in sys.argv[1:]:
+        pr, _, kk = a.partition(":")
+        sel.setdefault(pr, set())
+        if kk:
+            sel[pr].add(int(kk))
+    props = sorted(sel) or sorted(os.path.basename(d) for d in glob.glob(os.path.join(INC, "C*")))
     for prop in props:
         d = os.path.join(INC, prop)
         ks = sorted(set(int(re.search(r"patch(\d+)", p).group(1)) for p in glob.glob(os.path.join(d, "patch*.diff"))))
         for k in ks:
+            if sel.get(prop) and k not in sel[prop]:
+                continue
             patch = os.path.join(d, "patch%dr.diff" % k)
             rebased = os.path.exists(patch)
             if not rebased:
